@@ -64,6 +64,9 @@ pub enum Item {
     AttachRebind,
     /// first frame of the connection is not an open: 0 close, 1 begin, 2 empty, 3 garbage
     FirstFrameNotOpen(u8),
+    /// a legal flow of a kind peers seldom send: an echo request to our sender (0, 2: without delivery-count), to
+    /// our receiver (1, 3: without any link state), 4 a session flow with echo
+    UnusualFlow(u8),
     /// nothing hostile (control)
     Nothing,
 }
@@ -77,6 +80,7 @@ impl Item {
             Item::TransfersBeyondWindow(n) => json!({"transfers_beyond_window": n}),
             Item::FirstFrameNotOpen(k) => json!({"first_frame_not_open": k}),
             Item::BeginUnknownRemoteChannel(c) => json!({"begin_unknown_remote_channel": c}),
+            Item::UnusualFlow(k) => json!({"unusual_flow": k}),
             other => json!({"violation": format!("{:?}", other)}),
         }
     }
@@ -98,6 +102,9 @@ impl Item {
         }
         if let Some(n) = j.get("begin_unknown_remote_channel").and_then(|x| x.as_u64()) {
             return Some(Item::BeginUnknownRemoteChannel(n as u16));
+        }
+        if let Some(n) = j.get("unusual_flow").and_then(|x| x.as_u64()) {
+            return Some(Item::UnusualFlow(n as u8));
         }
         let v = j.get("violation")?.as_str()?;
         Some(match v {
@@ -122,7 +129,7 @@ impl Item {
     }
     /// must the application get to know (some later call fails, or the handle reports an error)?
     pub fn fatal(&self) -> bool {
-        !matches!(self, Item::Nothing | Item::DispositionUnknown | Item::DispositionHugeRange | Item::Frame { doff: 2, ftype: 0, .. })
+        !matches!(self, Item::Nothing | Item::UnusualFlow(_) | Item::DispositionUnknown | Item::DispositionHugeRange | Item::Frame { doff: 2, ftype: 0, .. })
     }
 }
 
@@ -308,6 +315,17 @@ pub fn run(item: &Item) -> Observed {
                 }
                 Item::FlowUnattached => {
                     let f = Flow { next_incoming_id: Some(0), incoming_window: 100, next_outgoing_id: 0, outgoing_window: 100, handle: Some(Handle(99)), delivery_count: Some(0), link_credit: Some(1), available: None, drain: false, echo: true, properties: None };
+                    let _ = peer.send(0, Performative::Flow(f), &[]).await;
+                }
+                Item::UnusualFlow(k) => {
+                    let (handle, dc, credit, drain, echo) = match k {
+                        0 => (Some(Handle(20)), Some(0), Some(10), false, true),
+                        1 => (Some(Handle(21)), Some(0), Some(0), false, true),
+                        2 => (Some(Handle(20)), None, Some(10), false, true),
+                        3 => (Some(Handle(21)), None, None, false, true),
+                        _ => (None, None, None, false, true),
+                    };
+                    let f = Flow { next_incoming_id: Some(0), incoming_window: 100, next_outgoing_id: 0, outgoing_window: 100, handle, delivery_count: dc, link_credit: credit, available: None, drain, echo, properties: None };
                     let _ = peer.send(0, Performative::Flow(f), &[]).await;
                 }
                 Item::TransferUnattached => {
@@ -536,7 +554,7 @@ pub fn run_guarded(item: &Item) -> Option<Observed> {
 }
 
 pub fn gen_item(rng: &mut Rng) -> Item {
-    match rng.below(22) {
+    match rng.below(24) {
         0 => {
             // a "frame" whose length field is below the header size
             let n = rng.below(8) as u32;
@@ -581,6 +599,7 @@ pub fn gen_item(rng: &mut Rng) -> Item {
         17 => rng.pick(&[Item::SecondBegin, Item::EndUnmapped, Item::SecondOpen, Item::BeginFromPeer, Item::BeginUnknownRemoteChannel(1), Item::BeginUnknownRemoteChannel(7), Item::BeginUnknownRemoteChannel(65535)]).clone(),
         18 => rng.pick(&[Item::DetachUnattached, Item::TransferToSender, Item::AttachHugeHandle, Item::AttachRebind]).clone(),
         19 => Item::FirstFrameNotOpen(rng.below(4) as u8),
+        21 | 22 => Item::UnusualFlow(rng.below(5) as u8),
         20 => {
             // a truncated but otherwise valid performative
             let full = Peer::encode_frame(0, &Performative::End(End { error: None }), &[]);
